@@ -687,7 +687,8 @@ def typed_ops(maxlen):
     # the hand-written recursive typed grammar (harness/c02_typed_rec.cpp): all inputs over {a,e,x,y,z} resp. + the skipper's s
     ops = [f"tenum cg E {REC_GRAMMAR} =aexyz {maxlen + 2}", f"tenum wg Ls {REC_GRAMMAR} =aexyzs {maxlen + 1}",
            f"typed cg E {REC_GRAMMAR} =xabexzycexaexzzz", f"typed cg E {REC_GRAMMAR} =xaexbexcexzzzyaexzz",
-           f"typed wg Ls {REC_GRAMMAR} =sxsasesxszsysbsesxscsesxszszsz"]
+           f"typed wg Ls {REC_GRAMMAR} =sxsassesxszssz", f"typed wg Ls {REC_GRAMMAR} =sxsassesxsassesxszsszssz",
+           f"typed wg Ls {REC_GRAMMAR} =sxsassesxszsz"]
     for i, (g, alpha, wide) in enumerate(typed_shapes()):
         ops.append(f"tenum c{'ph'[i % 2]} E {g} ={alpha} {maxlen}")
         if wide:
